@@ -23,6 +23,19 @@ var vhRowShapes = [][]vhCol{
 	{{TypeTiny, 0}, {TypeShort, 0}, {TypeTiny, 0}, {TypeYear, 0}, {TypeTiny, 0}, {TypeInt24, 0}, {TypeTiny, 0}, {TypeTiny, 0}, {TypeLong, 0}},
 	{{TypeTiny, 0}, {TypeTiny, 0}, {TypeTiny, 0}, {TypeTiny, 0}, {TypeTiny, 0}, {TypeTiny, 0}, {TypeTiny, 0}, {TypeTiny, 0}, {TypeShort, 0},
 		{TypeTiny, 0}, {TypeTiny, 0}, {TypeTiny, 0}, {TypeTiny, 0}, {TypeTiny, 0}, {TypeTiny, 0}, {TypeTiny, 0}, {TypeDate, 0}},
+	// 6: 300 columns (column count needs the 0xfc length prefix, 38-byte bitmaps)
+	vhWideCols(300),
+}
+
+func vhWideCols(n int) []vhCol {
+	cs := make([]vhCol, n)
+	for i := range cs {
+		cs[i] = vhCol{TypeTiny, 0}
+		if i%7 == 3 {
+			cs[i] = vhCol{TypeShort, 0}
+		}
+	}
+	return cs
 }
 
 // vwCell appends one cell of the given type with symbolic payload and a
@@ -68,7 +81,17 @@ func vwImage(w *vw, cols []vhCol, present []byte, symbolicBits bool) (nulls []by
 		}
 	}
 	nulls = make([]byte, (np+7)/8)
+	if len(nulls) > 3 {
+		// wide tables: one pattern for every byte of the bitmap
+		p := []byte{0x00, 0x5a, 0xff}[vhChoose(3)]
+		for i := range nulls {
+			nulls[i] = p
+		}
+	}
 	for i := range nulls {
+		if len(nulls) > 3 {
+			break
+		}
 		if symbolicBits {
 			nulls[i] = []byte{0x00, 0x5a, 0xff}[vhChoose(3)]
 		} else {
@@ -122,6 +145,13 @@ func VH_C09_Rows(kind, version, width, shape, extra int) {
 	w.lenenc(uint64(nc))
 	pick := func() []byte {
 		b := make([]byte, (nc+7)/8)
+		if nc > 17 {
+			p := []byte{0xff, 0xa5, 0x01}[vhChoose(3)]
+			for i := range b {
+				b[i] = p
+			}
+			return b
+		}
 		for i := range b {
 			if small {
 				// at least one column present (MySQL never logs an empty image)
